@@ -109,39 +109,234 @@ def get_fx(ix):
     return _FXC[id(ix)]
 
 
-def purity_obligations(rep, ix, funcs, rule, why, internal_out_params=()):
+_SCALAR_CALLS = {"float", "int", "abs", "round", "min", "max", "len", "bool", "complex", "pow", "divmod", "str"}
+
+
+def _provably_scalar(f):
+    """every return value of f is built from numbers only (so the cached object is immutable)"""
+    from .fx import scalar_params
+    ok_names = set(scalar_params(f))
+    assigns = {}
+    for n in ast.walk(f.node):
+        if isinstance(n, ast.Assign) and len(n.targets) == 1 and isinstance(n.targets[0], ast.Name):
+            assigns.setdefault(n.targets[0].id, []).append(n.value)
+        elif isinstance(n, (ast.AugAssign, ast.For, ast.While, ast.With)):
+            return False
+
+    def sc(e, depth=0):
+        if depth > 8:
+            return False
+        if isinstance(e, ast.Constant):
+            return isinstance(e.value, (int, float, complex, bool, str)) or e.value is None
+        if isinstance(e, ast.Name):
+            if e.id in ok_names:
+                return True
+            return e.id in assigns and all(sc(v, depth + 1) for v in assigns[e.id])
+        if isinstance(e, ast.BinOp):
+            return sc(e.left, depth + 1) and sc(e.right, depth + 1)
+        if isinstance(e, ast.UnaryOp):
+            return sc(e.operand, depth + 1)
+        if isinstance(e, ast.Tuple):
+            return all(sc(x, depth + 1) for x in e.elts)
+        if isinstance(e, ast.IfExp):
+            return sc(e.body, depth + 1) and sc(e.orelse, depth + 1)
+        if isinstance(e, ast.Compare):
+            return True
+        if isinstance(e, ast.Call):
+            fn = norm_text(e.func)
+            if fn in _SCALAR_CALLS or fn.startswith("math."):
+                return all(sc(a, depth + 1) for a in e.args)
+        return False
+    rets = [n for n in ast.walk(f.node) if isinstance(n, ast.Return) and n.value is not None]
+    return bool(rets) and all(sc(r.value) for r in rets)
+
+
+def memo_findings(ix, f):
+    """Why a memoisation decorator on `f` makes results depend on the call history; [] if it provably does not.
+    A cache is invisible iff the cached objects can never change and the key (the arguments) determines the value:
+      (a) no caller modifies a cached result in place,
+      (b) no cached mutable object is handed out to user code (public return), where it could be modified,
+      (c) the function depends on nothing but its arguments (no self, no module-level mutable object)."""
+    from .fx import is_memoised
+    if not is_memoised(f):
+        return []
+    fx = get_fx(ix)
+    out = []
+    for g in ix.all_functions():
+        for ev in fx.summary(g).memo_mut.get(f.fq, []):
+            if ev.kind == "data":
+                out.append(("the cached result of %s is modified in place in %s: `%s` (%s) - later calls return the modified object"
+                            % (f.fq, g.fq, ev.stmt_text()[:80], ev.how), ev.where()))
+    if not _provably_scalar(f):
+        public = set(x.fq for x in ix.public_functions())
+        if f.fq in public:
+            out.append(("public memoised function returns its cached (mutable) object: a caller that modifies the result changes what later calls return", f.where()))
+        for g in ix.all_functions():
+            if g.fq in public and f.fq in fx.summary(g).returns_memo:
+                out.append(("public function %s returns the cached (mutable) object of %s without copying it" % (g.fq, f.fq), g.where()))
+    if f.cls is not None:
+        out.append(("memoised method: the cache key does not contain the attributes the result depends on", f.where()))
+    else:
+        ns = ix.namespace(f.module.name)
+        loc = ix.local_names(f)
+        for n in ast.walk(f.node):
+            if isinstance(n, ast.Name) and isinstance(n.ctx, ast.Load) and n.id not in loc:
+                b = ns.get(n.id)
+                if b is not None and b.kind == "value" and isinstance(b.target, (ast.Dict, ast.List, ast.Set, ast.ListComp, ast.DictComp)):
+                    out.append(("memoised function reads module-level mutable object `%s`, which is not part of the cache key" % n.id, f.where(n)))
+                    break
+    return out
+
+
+def cache_excuse(ix, f, gname):
+    """None if the module-level dict `gname` written by `f` is an *invisible* cache, else the reason it is hidden state.
+    Invisible = (1) it is only ever written by keyed stores D[key] = value in one function, (2) the key contains every
+    parameter the stored value (and the decision to store it) depends on, and nothing but parameters is used,
+    (3) no stored object is ever modified in place, (4) no stored object is handed out by a public function
+    without a copy."""
+    fx = get_fx(ix)
+    # the functions that write the object themselves (callers inherit the effect "via" them)
+    direct = []
+    for g in ix.all_functions():
+        for ev in fx.summary(g).global_mut.get(gname, []):
+            if not ev.how.startswith("via "):
+                direct.append((g, ev))
+    mods = set(g.module.name for g, _ in direct)
+    if len(mods) != 1:
+        return "written from %d modules" % len(mods)
+    home = direct[0][0].module
+    ns = ix.namespace(home.name)
+    b = ns.get(gname)
+    if b is None or b.kind != "value":
+        return "not a plain module-level object"
+    t = b.target
+    if not ((isinstance(t, ast.Dict) and not t.keys) or (isinstance(t, ast.Call) and norm_text(t.func) in ("dict", "collections.OrderedDict", "OrderedDict") and not t.args)):
+        return "module-level object is not an empty dict used as a keyed cache"
+    for g in ix.all_functions():
+        if gname in fx.summary(g).global_rebind and g.module is home:
+            return "rebound by %s" % g.fq
+    writers = []
+    for g, ev in direct:
+        st = ev.node
+        if ev.origin[0] != "G" or not isinstance(st, ast.Assign) or len(st.targets) != 1 or \
+                not isinstance(st.targets[0], ast.Subscript) or norm_text(st.targets[0].value) != gname:
+            return "modified other than by a keyed store: `%s` in %s" % (ev.stmt_text()[:70], g.fq)
+        writers.append((g, st))
+    if not writers or any(g is not writers[0][0] for g, _ in writers):
+        return "written by several functions"
+    g = writers[0][0]
+    params = set(g.params + g.kwonly)
+    if g.cls is not None:
+        return "cache filled by a method (the key cannot contain the instance state)"
+    single = {}
+    for n in ast.walk(g.node):
+        if isinstance(n, ast.Assign) and len(n.targets) == 1 and isinstance(n.targets[0], ast.Name):
+            single.setdefault(n.targets[0].id, []).append(n.value)
+        elif isinstance(n, (ast.AugAssign,)) and isinstance(n.target, ast.Name):
+            single.setdefault(n.target.id, []).append(n.value)
+            single[n.target.id].append(ast.Name(id=n.target.id, ctx=ast.Load()))
+
+    def key_expr(k):
+        if isinstance(k, ast.Name) and k.id in single and len(single[k.id]) == 1:
+            return single[k.id][0]
+        return k
+
+    def deps(e, seen):
+        out = set()
+        for n in ast.walk(e):
+            if isinstance(n, ast.Name) and isinstance(n.ctx, ast.Load):
+                if n.id in params:
+                    out.add(n.id)
+                elif n.id in single and n.id not in seen:
+                    seen.add(n.id)
+                    for v in single[n.id]:
+                        out |= deps(v, seen)
+                elif n.id == "self":
+                    out.add("<self>")
+                else:
+                    bb = ns.get(n.id)
+                    if bb is not None and bb.kind == "value" and n.id != gname and isinstance(
+                            bb.target, (ast.Dict, ast.List, ast.Set, ast.ListComp, ast.DictComp, ast.Call)):
+                        out.add("<global %s>" % n.id)
+        return out
+    ktexts = set()
+    for _, st in writers:
+        k = st.targets[0].slice
+        ke = key_expr(k)
+        ktexts.add(norm_text(ke))
+        knames = set(n.id for n in ast.walk(ke) if isinstance(n, ast.Name))
+        d = deps(st.value, set())
+        # control dependence: tests of the enclosing ifs (other than membership tests on the cache itself)
+        for n in ast.walk(g.node):
+            if isinstance(n, ast.If) and any(x is st for x in ast.walk(n)):
+                for c in ast.walk(n.test):
+                    if isinstance(c, ast.Name) and not (isinstance(k, ast.Name) and c.id == k.id) and c.id != gname:
+                        d |= deps(c, set())
+        missing = sorted(x for x in d if x not in knames)
+        if missing:
+            return "the stored value depends on %s, which the key (%s) does not contain" % (", ".join(missing), norm_text(ke)[:60])
+    # every access uses the same key
+    for n in ast.walk(g.node):
+        if isinstance(n, ast.Subscript) and norm_text(n.value) == gname:
+            if norm_text(key_expr(n.slice)) not in ktexts:
+                return "read with a different key `%s`" % norm_text(n.slice)[:40]
+    public = set(x.fq for x in ix.public_functions())
+    for h in ix.all_functions():
+        if h.fq in public and gname in fx.summary(h).returns_global:
+            return "public function %s hands out the cached object without copying it" % h.fq
+    return None
+
+
+def global_state_findings(ix, f):
+    """[(name, message)] for module-level state written by f that makes results depend on the call history
+    (invisible complete-key caches are excused)."""
+    fx = get_fx(ix)
+    s = fx.summary(f)
+    out = []
+    for g in sorted(set(list(s.global_mut) + list(s.global_rebind))):
+        why = cache_excuse(ix, f, g) if g not in s.global_rebind else "rebound"
+        if why is None:
+            continue
+        out.append((g, "function writes module-level state `%s` (%s): results depend on the call history" % (g, why)))
+    return out
+
+
+def purity_obligations(rep, ix, funcs, rule, why, internal_out_params=(), closure=True):
     """Necessary condition shared by the formula-level properties: the functions whose normal forms are
     compared must be functions of their arguments only - they must not modify an argument (the same array is
-    reused across the identities / across repeated calls) nor keep state between calls."""
-    from .fx import MEMO_DECORATORS
+    reused across the identities / across repeated calls) nor keep state between calls.  With `closure`, the
+    repository functions reachable from `funcs` through resolved calls are included for the hidden-state part
+    (argument mutation inside a helper is already part of the caller's inter-procedural summary)."""
     fx = get_fx(ix)
-    for f in funcs:
+    roots = list(funcs)
+    allf = reachable_functions(ix, roots) if closure else roots
+    root_fq = set(f.fq for f in roots)
+    for f in allf:
         s = fx.summary(f)
         bad = False
-        for p, evs in sorted(s.mutates.items()):
-            ev = evs[0]
-            if ev.kind != "data":
-                continue
-            if (f.fq, p) in internal_out_params:
-                continue        # non-public helper writing into a buffer its (checked) callers allocate: an out-parameter by design
-            bad = True
-            rep.violation(rule, "%s(%s): %s" % (f.fq, p, ev.stmt_text()[:90]),
-                          "argument `%s` may be modified in place (%s): %s" % (p, ev.how, why), ev.where())
-        for g in sorted(set(list(s.global_mut) + list(s.global_rebind))):
-            bad = True
-            rep.violation(rule, "%s: module state %s" % (f.fq, g), "function writes module-level state `%s`: results depend on the call history" % g, f.where())
-        for d in f.node.decorator_list:
-            txt = norm_text(d)
-            if any(k in txt.split("(")[0].split(".")[-1] for k in MEMO_DECORATORS):
+        if f.fq in root_fq:
+            for p, evs in sorted(s.mutates.items()):
+                ev = evs[0]
+                if ev.kind != "data":
+                    continue
+                if (f.fq, p) in internal_out_params:
+                    continue        # non-public helper writing into a buffer its (checked) callers allocate: an out-parameter by design
                 bad = True
-                rep.violation(rule, "%s: @%s" % (f.fq, txt), "memoised: results depend on the call history", f.where(d))
+                rep.violation(rule, "%s(%s): %s" % (f.fq, p, ev.stmt_text()[:90]),
+                              "argument `%s` may be modified in place (%s): %s" % (p, ev.how, why), ev.where())
+        for g, msg in global_state_findings(ix, f):
+            bad = True
+            rep.violation(rule, "%s: module state %s" % (f.fq, g), msg, f.where())
+        for msg, where in memo_findings(ix, f):
+            bad = True
+            rep.violation(rule, "%s: memoised: %s" % (f.fq, msg[:100]), msg, where)
         for p, dflt in f.defaults.items():
             if isinstance(dflt, (ast.List, ast.Dict, ast.Set)) and _mutable_default_used(f, p):
                 bad = True
                 rep.violation(rule, "%s(%s=%s): mutable default used as a store" % (f.fq, p, norm_text(dflt)),
                               "a mutable default argument is written to: it persists between calls (hidden state)", f.where())
         if not bad:
-            rep.ok(rule, f.fq, "no argument mutation, no hidden state", False)
+            rep.ok(rule, f.fq, "no argument mutation, no hidden state" if f.fq in root_fq else "no hidden state (helper)", False)
 
 
 def _mutable_default_used(f, p):
